@@ -587,7 +587,7 @@ def rule_OW5(ctx, mod, E):
                   f'{k} is not rebuilt through {c}', ctx.where(mod, fd))
 
 
-def rule_OW5_roundtrip(ctx, mod, E):
+def rule_OW5_roundtrip(ctx, mod, E, only=None):
     """Every input of the constructor travels through to_dict / from_dict:
     a copy (or a stored simulation) that silently falls back to the default
     of an option is not the simulation that was copied."""
@@ -628,6 +628,8 @@ def rule_OW5_roundtrip(ctx, mod, E):
                     lst = au.const_list(ds[0].value) if len(ds) == 1 else None
                 consumed |= set(lst or [])
     for k in inputs:
+        if only and k not in only:
+            continue
         v = emitted.get(k)
         ctx.check('C12.OW5.roundtrip', f'Simulation input `{k}`',
                   v in (f'self.{k}', f'self._{k}', f'self.{k}.to_dict()')
@@ -638,7 +640,7 @@ def rule_OW5_roundtrip(ctx, mod, E):
                   'falls back to the default of this option',
                   ctx.where(mod, odict[0] if v is None else fd),
                   sample={'input': k, 'emitted': v})
-    ctx.floor('C12.OW5.roundtrip', 10)
+    ctx.floor('C12.OW5.roundtrip', len(only) if only else 10)
 
 
 def rule_OW6(ctx, mod, E):
